@@ -52,6 +52,31 @@ def S(conc=None, deps=E, ty=None):
     return ("s", conc, deps, ty)
 
 
+def SL(conc, ty, lanes):
+    """a scalar with per-byte dependence sets (least significant byte first); deps = their union"""
+    d = E
+    for l in lanes:
+        d = d | l
+    return ("s", conc, d, ty, tuple(lanes))
+
+
+def nbytes(ty):
+    b = INT_BITS.get(ty)
+    return b // 8 if b and b >= 8 else None
+
+
+def lanes_of(v, ty=None):
+    """per-byte dependence of a scalar: its own lanes when it carries them (and they fit the type), else every byte may
+    depend on everything the value depends on"""
+    ty = ty or v[3]
+    n = nbytes(ty)
+    if n is None:
+        return None
+    if len(v) > 4 and v[4] is not None and len(v[4]) == n:
+        return v[4]
+    return (v[2],) * n
+
+
 def TOP(deps=E):
     return ("top", deps)
 
@@ -92,7 +117,11 @@ def add_deps(v, d):
         return v
     k = v[0]
     if k == "s":
-        return v if d <= v[2] else ("s", v[1], v[2] | d, v[3])
+        if d <= v[2] and not (len(v) > 4 and v[4] is not None):
+            return v
+        if len(v) > 4 and v[4] is not None:
+            return ("s", v[1], v[2] | d, v[3], tuple(l | d for l in v[4]))
+        return ("s", v[1], v[2] | d, v[3])
     if k == "top":
         return ("top", v[1] | d)
     if k == "agg":
@@ -119,7 +148,12 @@ def join(a, b):
             return ("top", alldeps(a) | alldeps(b))
         raise Imprecise("join of %s and %s" % (ka, kb))
     if ka == "s":
-        return ("s", a[1] if a[1] == b[1] else None, a[2] | b[2], a[3] if a[3] == b[3] else None)
+        ty_ = a[3] if a[3] == b[3] else None
+        if ty_ is not None and (len(a) > 4 or len(b) > 4):
+            la, lb = lanes_of(a), lanes_of(b)
+            if la is not None and lb is not None and len(la) == len(lb):
+                return ("s", a[1] if a[1] == b[1] else None, a[2] | b[2], ty_, tuple(x | y for x, y in zip(la, lb)))
+        return ("s", a[1] if a[1] == b[1] else None, a[2] | b[2], ty_)
     if ka == "agg":
         if len(a[1]) != len(b[1]):
             n = max(len(a[1]), len(b[1]))
@@ -253,8 +287,6 @@ class Interp:
         s_ = str(s_).strip()
         if s_ in env:
             return env[s_]
-        if s_ in self.shape and s_ not in env:
-            return self.shape[s_]
         if s_.isdigit():
             return int(s_)
         if s_ in ("true", "false"):
@@ -603,8 +635,66 @@ class Interp:
                 r = w
         elif base in ("BitAnd", "Mul") and (x == 0 or y == 0) and ty in INT_BITS:
             pass
+        val = self._with_lanes(base, a, b, r, deps, ty)
         if chk:
-            return ("agg", (S(r, deps, ty), S(None if r is None else int(bool(ovf)), deps, "bool")), None)
+            return ("agg", (val, S(None if r is None else int(bool(ovf)), deps, "bool")), None)
+        return val
+
+    @staticmethod
+    def _prefix(la, lb):
+        out = []
+        acc = E
+        for x, y in zip(la, lb):
+            acc = acc | x | y
+            out.append(acc)
+        return out
+
+    def _with_lanes(self, base, a, b, r, deps, ty):
+        """result of an integer operation with per-byte dependence where the operation is byte-local or ripples upwards"""
+        n = nbytes(ty)
+        if n is None or not (len(a) > 4 or len(b) > 4):
+            return S(r, deps, ty)
+        la, lb = lanes_of(a, ty), lanes_of(b, ty)
+        if base in ("Shl", "Shr"):
+            lb = None
+        if la is None or (lb is None and base not in ("Shl", "Shr")):
+            return S(r, deps, ty)
+        x, y = a[1], b[1]
+        if base in ("BitAnd", "BitOr", "BitXor"):
+            lanes = [p | q for p, q in zip(la, lb)]
+            if base == "BitAnd":
+                for conc in (x, y):
+                    if conc is not None:
+                        cm = conc & ((1 << (8 * n)) - 1)
+                        for i in range(n):
+                            if (cm >> (8 * i)) & 0xFF == 0:
+                                lanes[i] = E
+            return SL(r, ty, lanes)
+        if base in ("Add", "Sub", "Mul"):
+            return SL(r, ty, self._prefix(la, lb))
+        if base in ("Shl", "Shr"):
+            sd = b[2]
+            if y is None or not (0 <= y < 8 * n):
+                allv = a[2] | sd
+                return SL(r, ty, [allv] * n)
+            q, rem = divmod(y, 8)
+            lanes = []
+            for i in range(n):
+                d_ = E
+                if base == "Shl":
+                    if i - q >= 0:
+                        d_ = d_ | la[i - q]
+                        if rem and i - q - 1 >= 0:
+                            d_ = d_ | la[i - q - 1]
+                else:
+                    if i + q < n:
+                        d_ = d_ | la[i + q]
+                        if rem and i + q + 1 < n:
+                            d_ = d_ | la[i + q + 1]
+                    if ty in SIGNED and (i + q + 1 >= n):
+                        d_ = d_ | la[n - 1]
+                lanes.append(d_ | sd)
+            return SL(r, ty, lanes)
         return S(r, deps, ty)
 
     def cast(self, rv, v):
@@ -617,6 +707,16 @@ class Interp:
                 c = wrap(c, to)
             else:
                 c = None if to not in INT_BITS else c
+            frm = rv.get("from")
+            nt = nbytes(to)
+            if nt is not None and len(v) > 4 and v[4] is not None and nbytes(frm) == len(v[4]):
+                li = list(v[4])
+                if nt <= len(li):
+                    return SL(c, to, li[:nt])
+                ext = li[-1] if frm in SIGNED else E
+                return SL(c, to, li + [ext] * (nt - len(li)))
+            if nt is not None and frm == "bool" and nt >= 1:
+                return SL(c, to, [v[2]] + [E] * (nt - 1))
             return S(c, v[2], to)
         if kind.startswith("PointerCoercion(Unsize") or kind == "Subtype":
             return v
@@ -661,6 +761,10 @@ class Interp:
                     c = wrap(-c, v[3]) if v[3] in INT_BITS else None
                 else:
                     c = None
+            if len(v) > 4 and v[4] is not None and op in ("Not", "Neg"):
+                lv = lanes_of(v)
+                if lv is not None:
+                    return SL(c, v[3], list(lv) if op == "Not" else self._prefix(lv, [E] * len(lv)))
             return S(c, v[2], v[3])
         if r == "cast":
             return self.cast(rv, self.operand(fr, rv["a"]))
@@ -935,6 +1039,65 @@ class Interp:
                 for x in fs:
                     self.refs_in(x, out)
 
+    def _prim_lanes(self, name, ty, args, sc):
+        """byte-exact dependence of the primitive methods that move or combine bytes (None: no such model)"""
+        n = nbytes(ty)
+        if n is None:
+            return None
+        if name in ("from_be_bytes", "from_le_bytes", "from_ne_bytes") and len(args) == 1:
+            a = args[0]
+            if a[0] == "arr" and len(a[1]) == n:
+                bs = [alldeps(x) for x in a[1]]
+                if name == "from_be_bytes":
+                    bs = bs[::-1]
+                return SL(None, ty, bs)
+            return None
+        if not sc or sc[0][0] != "s":
+            return None
+        x = sc[0]
+        if not (len(x) > 4 and x[4] is not None) and name not in ("to_be_bytes", "to_le_bytes", "to_ne_bytes"):
+            return None
+        lx = lanes_of(x, ty)
+        if lx is None:
+            return None
+        if name in ("to_be_bytes", "to_le_bytes", "to_ne_bytes"):
+            bs = list(lx)
+            if name == "to_be_bytes":
+                bs = bs[::-1]
+            return ("arr", tuple(S(None, b, "u8") for b in bs))
+        if name in ("swap_bytes", "reverse_bits"):
+            return SL(None, ty, list(lx)[::-1])
+        if name in ("to_le", "from_le"):
+            return SL(x[1], ty, list(lx))
+        if name in ("to_be", "from_be"):
+            return SL(None, ty, list(lx)[::-1])
+        if name in ("wrapping_add", "wrapping_sub", "wrapping_mul", "overflowing_add", "overflowing_sub", "overflowing_mul") and len(sc) == 2 and sc[1][0] == "s":
+            ly = lanes_of(sc[1], ty)
+            if ly is None:
+                return None
+            v = SL(None, ty, self._prefix(lx, ly))
+            if name.startswith("overflowing"):
+                return ("agg", (v, S(None, x[2] | sc[1][2], "bool")), None)
+            return v
+        if name in ("rotate_left", "rotate_right", "wrapping_shl", "wrapping_shr") and len(sc) == 2 and sc[1][0] == "s":
+            y = sc[1][1]
+            sd = sc[1][2]
+            if y is None:
+                return SL(None, ty, [x[2] | sd] * n)
+            y %= 8 * n
+            if name in ("wrapping_shl", "wrapping_shr"):
+                return self._with_lanes("Shl" if name == "wrapping_shl" else "Shr", x, S(y, sd, "u32"), None, x[2] | sd, ty)
+            q, rem = divmod(y, 8)
+            lanes = []
+            for i in range(n):
+                if name == "rotate_left":
+                    d_ = lx[(i - q) % n] | (lx[(i - q - 1) % n] if rem else E)
+                else:
+                    d_ = lx[(i + q) % n] | (lx[(i + q + 1) % n] if rem else E)
+                lanes.append(d_ | sd)
+            return SL(None, ty, lanes)
+        return None
+
     def extern(self, fr, path, t, args, pc):
         """a callee without MIR: modelled by name where the model is exact for dependence, conservative otherwise"""
         self.ext_seen[path] = self.ext_seen.get(path, 0) + 1
@@ -1016,6 +1179,9 @@ class Interp:
         # ---- primitive integer methods: dependence = all operands; concrete where the operands are
         if path.startswith("core::num::<impl "):
             ty = path[len("core::num::<impl "):].split(">")[0]
+            lr = self._prim_lanes(name, ty, args, sc)
+            if lr is not None:
+                return lr, pc
             vals = [x[1] if x[0] == "s" else None for x in sc]
             deps = E
             for a in args:
@@ -1133,19 +1299,26 @@ class Heap:
         return ("ref", (0, i, ()))
 
 
-def digits(label, n):
-    return ("arr", tuple(S(None, frozenset(["%s[%d]" % (label, j)]), None) for j in range(n)))
+def digits(label, n, ty=None):
+    """n input digits; with a digit type each digit carries per-byte leaves `label[j]#b` next to its digit leaf `label[j]`"""
+    w = nbytes(ty) if ty else None
+    if w:
+        return ("arr", tuple(SL(None, ty, [frozenset(["%s[%d]" % (label, j), "%s[%d]#%d" % (label, j, b)]) for b in range(w)]) for j in range(n)))
+    return ("arr", tuple(S(None, frozenset(["%s[%d]" % (label, j)]), ty) for j in range(n)))
 
 
-def buint(label, n):
-    return ("agg", (digits(label, n),), "BUint")
+def buint(label, n, ty=None):
+    return ("agg", (digits(label, n, ty),), "BUint")
 
 
-def bint(label, n):
-    return ("agg", (buint(label, n),), "BInt")
+def bint(label, n, ty=None):
+    return ("agg", (buint(label, n, ty),), "BInt")
 
 
 def leaf(label, ty=None):
+    w = nbytes(ty) if ty else None
+    if w and w > 1:
+        return SL(None, ty, [frozenset([label, "%s#%d" % (label, b)]) for b in range(w)])
     return S(None, frozenset([label]), ty)
 
 
@@ -1184,6 +1357,13 @@ def select(v, path):
             if v[0] == "enum":
                 return S(v[1], v[2], None)
             return S(None, alldeps(v), None)
+        if isinstance(e, tuple) and e[0] == "lane":
+            if v[0] == "s":
+                lv = lanes_of(v)
+                if lv is not None and e[1] < len(lv):
+                    return S(None, lv[e[1]], "u8")
+                return S(None, v[2], "u8")
+            return TOP(alldeps(v))
         if isinstance(e, tuple):
             vi = {"some": 1, "ok": 0, "err": 1, "none": 0}[e[0]]
             if v[0] == "enum":
